@@ -753,6 +753,22 @@ class Gen:
             edits.append((1, 1, ' let mut vx_self = self; ', 'R10'))
             for m in re.finditer(r'\bself\b', bmask):
                 edits.append((m.start(), m.end(), 'vx_self', 'R10'))
+        # R5g (`| fmt_args` on the directive): `format!("..{a}..{b}..")` whose only argument is a literal with inline captures of
+        #      plain identifiers becomes `vx_fmtN(<the literal>, &a, &b, ..)`: a shim declared by the unit whose result is an
+        #      UNINTERPRETED function of the literal and the captured values (so "depends only on these values" is provable)
+        if opts.get('fmt_args'):
+            for m in re.finditer(r'\bformat!\s*\(', bmask):
+                ob_ = bmask.find('(', m.start())
+                cbp = L.match_close(bmask, ob_)
+                arg = btxt[ob_ + 1:cbp].strip()
+                ml = re.match(r'^(r(#*)"(.*)"\2|"((?:[^"\\]|\\.)*)")$', arg, re.S)
+                if not ml:
+                    raise Undecided('unsupported construct: format! with explicit arguments in fn %s (fmt_args)' % label)
+                lit = ml.group(3) if ml.group(3) is not None else ml.group(4)
+                caps = re.findall(r'(?<!\{)\{(\w+)\}(?!\})', lit.replace('{{', '\0\0').replace('}}', '\0\0'))
+                if re.search(r'\{[^}\w]|\{\w+[^}\w]', lit.replace('{{', '').replace('}}', '')):
+                    raise Undecided('unsupported construct: format! placeholder other than a plain identifier in fn %s' % label)
+                edits.append((m.start(), cbp + 1, 'vx_fmt%d(%s%s)' % (len(caps), arg, ''.join(', &' + c for c in caps)), 'R5'))
         # R5f (`| fmt_opaque` on the directive): every `format!(..)` expression becomes `vx_fmt_opaque()` - an arbitrary String.
         #      The arguments are Display/Debug renderings without side effects in the functions this is used for (stated).
         if opts.get('fmt_opaque'):
